@@ -359,6 +359,69 @@ def _h_vanished():
     return fn
 
 
+HIER = ['a', 'a/b', 'a/c', 'x', 'x/b', 'x/c']
+HIER_ENDS = ['a', 'x', 'a/b', 'x/b', 'y']
+HIER_CMDS = ['rename', 'delete', 'create']
+
+
+def hierarchy(g, sim, present, cmd, src, dst):
+    """a hierarchy drawn from HIER (each mailbox holds one message of its own), then one RENAME / DELETE / CREATE over
+    it: a NO / BAD answer leaves every name and every message where it was; an OK answer loses no message (RENAME and
+    CREATE keep all of them, DELETE removes exactly the named mailbox's).  returns error|None"""
+    w = sim.World(g, 1, mailboxes=())
+    M, EO = g['Mailbox'], g['ExtensionOptions']
+    dt, tz = g['datetime'], g['timezone'].utc
+    for i, name in enumerate(HIER):
+        if present[i]:
+            r = w.run(0, g['CreateCommand'](w.tag(), M(name), EO.empty()))
+            if r[0] != 'OK':
+                return None
+            w.append(0, name, when=dt(2020, 1, 1 + i, tzinfo=tz))
+
+    def state():
+        out = {}
+        for name in sorted(w.mset._set.keys()):
+            out[name] = sorted(m.internal_date.day for m in w.mset._set[name]._messages.values())
+        return out
+    before = state()
+    if cmd == 'rename':
+        r = w.run(0, g['RenameCommand'](w.tag(), M(src), M(dst), EO.empty()))
+    elif cmd == 'delete':
+        r = w.run(0, g['DeleteCommand'](w.tag(), M(src)))
+    else:
+        r = w.run(0, g['CreateCommand'](w.tag(), M(dst), EO.empty()))
+    after = state()
+    what = '%s %s%s' % (cmd.upper(), src if cmd != 'create' else dst, ' ' + dst if cmd == 'rename' else '')
+    if r[0] in ('NO', 'BAD'):
+        if after != before:
+            return '%s answered %s but changed the mailboxes: %r -> %r' % (what, r[0], before, after)
+        return None
+    if r[0] != 'OK':
+        return None
+    days0 = sorted(d for v in before.values() for d in v)
+    days1 = sorted(d for v in after.values() for d in v)
+    if cmd == 'delete':
+        want = sorted(d for k, v in before.items() if k != src for d in v)
+        if days1 != want:
+            return '%s answered OK: messages %r became %r, expected %r' % (what, days0, days1, want)
+    elif days1 != days0:
+        return '%s answered OK and lost or duplicated messages: %r -> %r' % (what, before, after)
+    return None
+
+
+def _h_hierarchy():
+    def fn(eng):
+        from pysymex import Outcome
+        present = [bool(eng.flip('has_%d' % i)) for i in range(len(HIER))]
+        cmd = HIER_CMDS[eng.choose('cmd', len(HIER_CMDS))]
+        src = HIER_ENDS[eng.choose('src', len(HIER_ENDS))] if cmd != 'create' else None
+        dst = HIER_ENDS[eng.choose('dst', len(HIER_ENDS))] if cmd != 'delete' else None
+        wit = lambda m: {'present': present, 'cmd': cmd, 'src': src, 'dst': dst}  # noqa: E731
+        err = hierarchy(_g, _g['_sim'], present, cmd, src, dst)
+        return Outcome(err is None, witness=wit, info=err)
+    return fn
+
+
 def harnesses(tier):
     from pysymex.runner import Harness
     from checks import _conc
@@ -369,6 +432,10 @@ def harnesses(tier):
     extra.append(Harness('selected_mailbox_vanishes', _h_vanished(),
                          {'how': VANISH, 'then': AFTER, 'oracle': 'NO/BAD leaves every mailbox unchanged; OK APPEND stored everything'},
                          replay='vanished', task_budget=60))
+    extra.append(Harness('hierarchy_commands', _h_hierarchy(),
+                         {'hierarchy': 'any subset of %r, one message each' % (HIER,), 'commands': HIER_CMDS, 'names': HIER_ENDS,
+                          'oracle': 'NO/BAD leaves names and messages unchanged; OK loses no message'},
+                         replay='hierarchy', task_budget=60))
     for kind in range(len(STREAMS)):
         extra.append(Harness('dropped_inside[%s]' % STREAMS[kind], _h_truncated(kind, 2),
                              {'command': STREAMS[kind], 'cut': 'every byte position', 'literal_bytes': 'symbolic'},
@@ -384,6 +451,9 @@ def replay(harness, w):
     if harness == 'vanished':
         err = vanished(g, _sim, w['how'], w['op'])
         return {'violates': err is not None, 'detail': err, 'kind': 'vanished', 'category': 'selected mailbox vanished: ' + w['op']}
+    if harness == 'hierarchy':
+        err = hierarchy(g, _sim, w['present'], w['cmd'], w['src'], w['dst'])
+        return {'violates': err is not None, 'detail': err, 'kind': 'hierarchy', 'category': 'hierarchy: ' + (err or '').split(' answered')[0][:40]}
     if harness == 'truncated':
         from checks import _conn
         from pymap.imap import IMAPConnection
